@@ -100,24 +100,30 @@ def copyFunction (s : BState) (srcFlags index typemod : Nat) (name : NameKey) : 
                            isLocal := false, cidx := 0, aliasFor := 1 }],
     idents := s.idents ++ [(name, wh)] }
 
+/-- overload_function, part 1: the new alias entry (FUNCTION_ALIAS (alias) = oldindex) -/
+def addAlias (s : BState) (index oldindex : Nat) : BState :=
+  { s with slots := s.slots ++ [{ flags := nameInherited ||| nameAlias, rt := .inh (s.inherits.length - 1) index,
+                                  isLocal := false, cidx := 0, aliasFor := oldindex }] }
+
+/-- overload_function, part 2: "the latest function wins" — if the old slot is not defined at this level and the new
+    function has code, the old slot takes the new flags and entry; a prototype of this level is marked for removal -/
+def latestWins (s : BState) (old : BSlot) (srcFlags index oldindex typemod : Nat) : BState :=
+  if hasBit old.flags nameUndefined && !(hasBit srcFlags nameNoCode) then
+    modifySlot
+      (if old.isLocal then { s with cfuncs := s.cfuncs.modify old.cidx (fun c => { c with removed := true }) } else s)
+      oldindex (fun sl => { sl with flags := inheritedFlags srcFlags typemod, isLocal := false,
+                                    rt := .inh (s.inherits.length - 1) index })
+  else s
+
+/-- overload_function, part 3: `if (!(newflags & NAME_ALIAS)) FUNCTION_ALIAS (oldindex)++` -/
+def bumpCount (s : BState) (srcFlags oldindex : Nat) : BState :=
+  if !(hasBit srcFlags nameAlias) then modifySlot s oldindex (fun sl => { sl with aliasFor := sl.aliasFor + 1 }) else s
+
 /-- overload_function (prog, index, defprog, defindex, oldindex, typemod) -/
 def overloadFunction (s : BState) (srcFlags index oldindex typemod : Nat) : BState :=
   match s.slots[oldindex]? with
   | none => s
-  | some old =>
-    let oldflags := old.flags
-    let newflags := srcFlags
-    -- the alias entry
-    let s := { s with slots := s.slots ++ [{ flags := nameInherited ||| nameAlias, rt := .inh (s.inherits.length - 1) index,
-                                             isLocal := false, cidx := 0, aliasFor := oldindex }] }
-    -- the latest function wins
-    let s :=
-      if hasBit oldflags nameUndefined && !(hasBit newflags nameNoCode) then
-        let s := if old.isLocal then { s with cfuncs := s.cfuncs.modify old.cidx (fun c => { c with removed := true }) } else s
-        modifySlot s oldindex (fun sl => { sl with flags := inheritedFlags newflags typemod, isLocal := false,
-                                                   rt := .inh (s.inherits.length - 1) index })
-      else s
-    if !(hasBit newflags nameAlias) then modifySlot s oldindex (fun sl => { sl with aliasFor := sl.aliasFor + 1 }) else s
+  | some old => bumpCount (latestWins (addAlias s index oldindex) old srcFlags index oldindex typemod) srcFlags oldindex
 
 /-- the inheritance rule of grammar.y + copy_variables (count only) + copy_functions -/
 def doInherit (w : World) (s : BState) (mods q : Nat) : BState :=
